@@ -33,6 +33,8 @@ if TYPE_CHECKING:
 
 
 from exabgp.bgp.message.notification import Notify
+from exabgp.bgp.message.open.asn import AS_TRANS
+from exabgp.bgp.message.update.attribute.aggregator import Aggregator
 from exabgp.bgp.message.update.attribute.aspath import SEQUENCE, SET, AS2Path
 from exabgp.bgp.message.update.attribute.attribute import (
     Attribute,
@@ -366,6 +368,16 @@ class AttributeCollection(MutableMapping[int, Attribute]):
 
         if Attribute.CODE.AS_PATH in attributes and Attribute.CODE.AS4_PATH in attributes:
             attributes.merge_attributes()
+
+        if Attribute.CODE.AGGREGATOR in attributes and Attribute.CODE.AS4_AGGREGATOR in attributes:
+            # RFC 6793 4.2.3: AS4_AGGREGATOR holds the real aggregator when AGGREGATOR carries AS_TRANS and is
+            # ignored otherwise; the two share the name 'aggregator' in every rendering
+            aggregator = attributes[Attribute.CODE.AGGREGATOR]
+            aggregator4 = attributes[Attribute.CODE.AS4_AGGREGATOR]
+            attributes.remove(Attribute.CODE.AS4_AGGREGATOR)
+            if isinstance(aggregator, Aggregator) and isinstance(aggregator4, Aggregator) and aggregator.asn == AS_TRANS:
+                attributes.remove(Attribute.CODE.AGGREGATOR)
+                attributes.add(Aggregator.make_aggregator(aggregator4.asn, aggregator4.speaker))
 
         if Attribute.CODE.MP_REACH_NLRI not in attributes and Attribute.CODE.MP_UNREACH_NLRI not in attributes:
             cls.previous = data
